@@ -298,6 +298,23 @@ def _set(lib, run, recv, args, kw):
     return Lazy('setof', payload=v)
 
 
+@reg('itertools.chain.from_iterable')
+def _chain_from_iterable(lib, run, recv, args, kw):
+    v = args[0]
+    if isinstance(v, Lazy) and v.kind == 'genexp':
+        from .loops import eval_comprehension
+        saved = run.frames[-1].env
+        run.frames[-1].env = dict(v.env)
+        try:
+            v = eval_comprehension(run, v.node, 'list')
+        finally:
+            run.frames[-1].env = saved
+    if isinstance(v, Ref) and isinstance(run.deref(v), NestedListO):
+        from .loops import flatten
+        return Lazy('chain', payload=flatten(run, run.deref(v)))
+    raise Unsupported('chain.from_iterable of %r' % (v,))
+
+
 @reg('copy.deepcopy')
 def _deepcopy(lib, run, recv, args, kw):
     run.note('lib:copy.deepcopy (A6: value-equal, disjoint, aliasing-preserving copy)')
@@ -979,3 +996,17 @@ def _gen_choice(lib, run, recv, args, kw):
     run.st.draws.append(('choice', n, pt, size[1]))
     _set_rs(run, recv, next_choice(s, n, hp, pt, size[1]))
     return SeqV('I', draw_choice(s, n, hp, pt, size[1]))
+
+
+def mk_mrow(M, i):
+    """row i of M; a row of a row-slice is read from the sliced matrix directly (mslice.row)"""
+    if z3.is_app(M) and M.decl().name() == 'mslice':
+        return mk_mrow(M.arg(0), M.arg(1) + i)
+    return mrow(M, i)
+
+
+def mk_iat(u, i):
+    """element i of an int sequence; an element of a slice is read from the sliced sequence directly (islice.at)"""
+    if z3.is_app(u) and u.decl().name() == 'islice':
+        return mk_iat(u.arg(0), u.arg(1) + i)
+    return iat(u, i)
